@@ -18,7 +18,7 @@ RULE = (
     'production LightSet + LifxLanApi over the simulated LAN with a virtual '
     'clock: discover(arbitrary snapshot over 4 names x 3 groups x 3 '
     'locations, duplicate labels allowed), failing discover, advance(dt), '
-    'refresh (discover + expiry with a generated light_gc_time), up to 12 '
+    'refresh (discover + expiry with a generated light_gc_time, 0 included), up to 12 '
     'steps; after every step the directory is compared with a dict model '
     '(name -> group, location, last seen): names sorted / duplicate-free / '
     'exactly the known lights, each light in exactly its last reported group '
@@ -216,7 +216,7 @@ def snapshots(draw, names=NAMES, groups=GROUPS, locs=LOCS, dups=True):
     return out
 
 
-def machine_class(acc, gc_choices=(30, 100, 300)):
+def machine_class(acc, gc_choices=(0, 1, 30, 100, 300)):
     class DirectoryMachine(RuleBasedStateMachine):
         def __init__(self):
             super().__init__()
